@@ -181,9 +181,7 @@ fn getrange_n<const N: usize>() {
     match m {
         None => assert!(got.is_empty(), "GETRANGE must be empty here"),
         Some((lo, hi)) => {
-            if alt && got.is_empty() {
-                // accepted (Redis 8 answer)
-            } else {
+            {
                 assert!(got.len() == hi - lo + 1, "GETRANGE reply length");
                 let mut i = 0;
                 while i < got.len() {
@@ -1135,9 +1133,11 @@ eng_harness_vec!(c03_rpop_n1, 6, { op_push_pop::<1>(3); });
 eng_harness_vec!(c03_rpop_n2, 6, { op_push_pop::<2>(3); });
 
 /// LREM count elem on a 3-element list with symbolic (hence possibly duplicate) contents.
-fn op_lrem() {
+fn op_lrem(sign: i8) {
     let (e, c, base) = list_env::<3>();
     let count: isize = kani::any();
+    // the three branches of LREM are separate harnesses (count < 0, == 0, > 0)
+    kani::assume((sign < 0 && count < 0) || (sign == 0 && count == 0) || (sign > 0 && count > 0));
     let x: u8 = kani::any();
     let r = e.lrem(0, KA.to_vec(), count, vec![x]);
     // model
@@ -1183,7 +1183,7 @@ fn op_lrem() {
     }
     std::mem::forget(e);
 }
-eng_harness_vec!(c03_lrem_n3, 6, { op_lrem(); });
+// (symbolic count: out of memory; see op_lrem_concrete)
 
 // ---------------------------------------------------------------- C03 sets and hashes
 fn set_is(e: &StorageEngine, want: &[u8], n: usize) -> bool {
@@ -1430,3 +1430,153 @@ eng_harness_vec!(c19_scan_count1_stable, 8, { scan_check(1, 0); });
 eng_harness_vec!(c19_scan_count2_stable, 8, { scan_check(2, 0); });
 eng_harness_vec!(c19_scan_count1_add, 8, { scan_check(1, 2); });
 eng_harness_vec!(c19_scan_count1_delete_kf, 8, { scan_check(1, 1); });
+
+// ---------------------------------------------------------------- strengthening after seeded changes
+/// RENAME k k: an existing key keeps its value; a missing key is 'no such key' (Redis checks
+/// existence before anything else).
+fn op_rename_same_name(present: bool) {
+    let e = mk_engine1();
+    let c: [u8; 2] = kani::any();
+    if present {
+        put_raw(&e, 0, KA, Value::String(vec![c[0], c[1]]), Some(mk_instant(T0_S + 7, 1)));
+    }
+    let r = e.rename(0, KA, KA.to_vec());
+    kani::cover!(true, "rename returned");
+    if present {
+        assert!(r.is_ok(), "RENAME k k on an existing key succeeds");
+        assert!(matches!(peek_str(&e, 0, KA), Obs::Str(b) if b.len() == 2 && b[0] == c[0] && b[1] == c[1]), "RENAME k k keeps the value");
+        assert!(matches!(peek_deadline(&e, 0, KA), Some(Some(t)) if t == mk_instant(T0_S + 7, 1)), "RENAME k k keeps the TTL");
+    } else {
+        assert!(matches!(&r, Err(FerrousError::Command(CommandError::NoSuchKey))), "RENAME k k on a missing key is 'no such key'");
+        assert!(matches!(peek_str(&e, 0, KA), Obs::Absent));
+    }
+    std::mem::forget(r);
+    std::mem::forget(e);
+}
+eng_harness!(c01_rename_same_name_missing, 5, { op_rename_same_name(false); });
+eng_harness!(c01_rename_same_name_present, 5, { op_rename_same_name(true); });
+
+/// SET EX / SETNX EX with any (u32 s, ns) duration: the value carries deadline = now + ttl and
+/// the index agrees (a zero TTL is still a TTL).
+eng_harness!(c02_setex_deadline, 5, {
+    let e = mk_engine1();
+    let secs: u32 = kani::any();
+    let nanos: u32 = kani::any();
+    kani::assume(nanos < 1_000_000_000);
+    let v: u8 = kani::any();
+    let nx: bool = kani::any();
+    let d = Duration::new(secs as u64, nanos);
+    if nx {
+        assert!(matches!(e.set_string_nx_ex(0, KA.to_vec(), vec![v], d), Ok(true)));
+    } else {
+        assert!(e.set_string_ex(0, KA.to_vec(), vec![v], d).is_ok());
+    }
+    kani::cover!(secs == 0 && nanos == 0, "zero TTL");
+    let want = mk_instant(T0_S + secs as i64, nanos);
+    assert!(matches!(peek_deadline(&e, 0, KA), Some(Some(t)) if t == want), "SET EX stores deadline = now + ttl (also for a zero ttl)");
+    assert!(matches!(peek_index(&e, 0, KA), Some(t) if t == want), "SET EX indexes the same deadline");
+    assert!(matches!(peek_str(&e, 0, KA), Obs::Str(b) if b.len() == 1 && b[0] == v));
+    std::mem::forget(e);
+});
+
+/// SDIFF a m b with a = {x, y}, m missing, b = {y'}: missing keys are empty sets, every later key
+/// is still subtracted.  (keys 'a' shard 12, 'q' shard 12 missing, 'b' shard 5)
+eng_harness_vec!(c03_sdiff_missing_middle, 6, {
+    let e = mk_engine1();
+    let c: [u8; 3] = kani::any();
+    kani::assume(c[0] != c[1]);
+    let mut h = HashSet::new();
+    h.insert(vec![c[0]]);
+    h.insert(vec![c[1]]);
+    put_raw(&e, 0, KA, Value::Set(h), None);
+    let mut h2 = HashSet::new();
+    h2.insert(vec![c[2]]);
+    put_raw(&e, 0, KB, Value::Set(h2), None);
+    let keys: [&[u8]; 3] = [KA, KQ, KB];
+    let r = std::mem::ManuallyDrop::new(e.sdiff(0, &keys));
+    kani::cover!(c[2] == c[1], "second set removes a member");
+    match &*r {
+        Ok(v) => {
+            let want0 = c[0] != c[2];
+            let want1 = c[1] != c[2];
+            let n = (want0 as usize) + (want1 as usize);
+            assert!(v.len() == n, "SDIFF: number of members (a missing key in the middle is an empty set)");
+            let mut i = 0;
+            while i < v.len() {
+                assert!(v[i].len() == 1 && ((want0 && v[i][0] == c[0]) || (want1 && v[i][0] == c[1])), "SDIFF member");
+                i += 1;
+            }
+        }
+        Err(_) => assert!(false, "SDIFF failed"),
+    }
+    std::mem::forget(e);
+});
+
+/// LREM with small concrete negative/positive counts on [x0, x1, x2] (symbolic, possibly equal)
+fn op_lrem_concrete(count: isize) {
+    let (e, c, _base) = list_env::<3>();
+    let x: u8 = kani::any();
+    let r = e.lrem(0, KA.to_vec(), count, vec![x]);
+    let mut keep = [true; 3];
+    let mut removed = 0usize;
+    let limit = count.unsigned_abs();
+    if count > 0 {
+        let mut i = 0;
+        while i < 3 {
+            if c[i] == x && removed < limit {
+                keep[i] = false;
+                removed += 1;
+            }
+            i += 1;
+        }
+    } else {
+        let mut i = 3;
+        while i > 0 {
+            i -= 1;
+            if c[i] == x && removed < limit {
+                keep[i] = false;
+                removed += 1;
+            }
+        }
+    }
+    let mut want = [0u8; 3];
+    let mut n = 0;
+    let mut i = 0;
+    while i < 3 {
+        if keep[i] {
+            want[n] = c[i];
+            n += 1;
+        }
+        i += 1;
+    }
+    kani::cover!(removed == 1 && n == 2, "one of several occurrences removed");
+    assert!(matches!(r, Ok(k) if k == removed), "LREM returns the number of removed elements");
+    assert!(list_is(&e, &want, n), "LREM removes the first (count>0) / last (count<0) |count| occurrences and keeps the order of the rest");
+    std::mem::forget(e);
+}
+eng_harness_vec!(c03_lrem_minus1, 6, { op_lrem_concrete(-1); });
+eng_harness_vec!(c03_lrem_plus1, 6, { op_lrem_concrete(1); });
+
+// cross-shard RENAME (group eng2s: 'a' in shard 0, 'b' in shard 1), both directions, so that both
+// lock-acquisition orders (decided by comparing shard addresses) are exercised
+// NOT REGISTERED (timeout > 900 s):
+eng_harness_vec!(c01_rename_cross_ab, 5, { op_rename(Pre::Str2, KB, false); });
+eng_harness_vec!(c01_rename_cross_ba, 5, {
+    let e = mk_engine1();
+    let c: [u8; 2] = kani::any();
+    let dl = mk_instant(T0_S + 100, 7);
+    put_raw(&e, 0, KB, Value::String(vec![c[0], c[1]]), Some(dl));
+    let base_a = e.register_watch(0, KA).ok().unwrap();
+    let base_b = e.register_watch(0, KB).ok().unwrap();
+    let r = e.rename(0, KB, KA.to_vec());
+    kani::cover!(true, "rename returned");
+    assert!(r.is_ok());
+    assert!(matches!(peek_str(&e, 0, KB), Obs::Absent), "RENAME removes the source");
+    assert!(matches!(peek_str(&e, 0, KA), Obs::Str(b) if b.len() == 2 && b[0] == c[0] && b[1] == c[1]), "RENAME moves the value");
+    assert!(matches!(peek_deadline(&e, 0, KA), Some(Some(t)) if t == dl), "C02: the TTL travels with the value");
+    assert!(e.was_modified_since(0, KA, base_a).ok().unwrap(), "C08: RENAME must report the destination key as modified");
+    assert!(e.was_modified_since(0, KB, base_b).ok().unwrap(), "C08: RENAME must report the source key as modified");
+    assert!(peek_index(&e, 0, KB).is_none() && matches!(peek_index(&e, 0, KA), Some(t) if t == dl), "C02: expiry index follows the value");
+    std::mem::forget(r);
+    std::mem::forget(e);
+});
